@@ -37,11 +37,12 @@ use crate::{
     substream::Substream,
     transport::Endpoint,
     types::SubstreamId,
+    utils::futures_stream::FuturesStream,
     PeerId,
 };
 
 use bytes::{Bytes, BytesMut};
-use futures::StreamExt;
+use futures::{future::BoxFuture, StreamExt};
 use multiaddr::Multiaddr;
 use tokio::sync::mpsc::{Receiver, Sender};
 
@@ -183,6 +184,12 @@ pub(crate) struct Kademlia {
 
     /// Query executor.
     executor: QueryExecutor,
+
+    /// Substreams being closed.
+    ///
+    /// Closing can take as long as the remote takes to acknowledge it (QUIC) so it must not
+    /// be awaited in the event loop.
+    pending_closes: FuturesStream<BoxFuture<'static, ()>>,
 }
 
 impl Kademlia {
@@ -212,6 +219,7 @@ impl Kademlia {
             local_key,
             pending_dials: HashMap::new(),
             executor: QueryExecutor::new(),
+            pending_closes: FuturesStream::new(),
             pending_substreams: HashMap::new(),
             update_mode: config.update_mode,
             validation_mode: config.validation_mode,
@@ -226,6 +234,13 @@ impl Kademlia {
         let query_id = self.next_query_id.fetch_add(1, Ordering::Relaxed);
 
         QueryId(query_id)
+    }
+
+    /// Close `substream` in the background.
+    fn close_substream(&mut self, substream: Substream) {
+        self.pending_closes.push(Box::pin(async move {
+            substream.close().await;
+        }));
     }
 
     /// Connection established to remote peer.
@@ -361,7 +376,7 @@ impl Kademlia {
                     "pending action doesn't exist for peer, closing substream",
                 );
 
-                let _ = substream.close().await;
+                self.close_substream(substream);
                 return Ok(());
             }
             Some(PeerAction::SendFindNode(query)) => {
@@ -382,11 +397,11 @@ impl Kademlia {
                     }
                     // query finished while the substream was being opened
                     None => {
-                        let _ = substream.close().await;
+                        self.close_substream(substream);
                     }
                     action => {
                         tracing::warn!(target: LOG_TARGET, ?query, ?peer, ?action, "unexpected action for `FIND_NODE`");
-                        let _ = substream.close().await;
+                        self.close_substream(substream);
                         debug_assert!(false);
                     }
                 }
@@ -488,7 +503,7 @@ impl Kademlia {
                             peer,
                             KademliaMessage::FindNode { target, peers },
                         );
-                        substream.close().await;
+                        self.close_substream(substream);
                     }
                     None => {
                         tracing::trace!(
@@ -522,7 +537,7 @@ impl Kademlia {
                         peer,
                         KademliaMessage::PutValue { record },
                     );
-                    substream.close().await;
+                    self.close_substream(substream);
                 }
                 None => {
                     tracing::trace!(
@@ -570,7 +585,7 @@ impl Kademlia {
                             KademliaMessage::GetRecord { key, record, peers },
                         );
 
-                        substream.close().await;
+                        self.close_substream(substream);
                     }
                     (None, Some(key)) => {
                         tracing::trace!(
@@ -680,7 +695,7 @@ impl Kademlia {
                             },
                         );
 
-                        substream.close().await;
+                        self.close_substream(substream);
                     }
                     (None, Some(key)) => {
                         tracing::trace!(
@@ -1087,6 +1102,7 @@ impl Kademlia {
                         self.on_dial_failure(peer, addresses),
                     None => return Err(Error::EssentialTaskClosed),
                 },
+                _ = self.pending_closes.next() => {}
                 context = self.executor.next() => {
                     let QueryContext { peer, query_id, result } = context.unwrap();
 
@@ -1098,7 +1114,7 @@ impl Kademlia {
                                 query = ?query_id,
                                 "message sent to peer",
                             );
-                            let _ = substream.close().await;
+                            self.close_substream(substream);
 
                             if let Some(query_id) = query_id {
                                 self.engine.register_send_success(query_id, peer);
